@@ -23,6 +23,24 @@ impl Signer for Recording {
     fn is_interactive(&self) -> bool { false }
 }
 
+/// a signer that declines every request (a hardware wallet whose prompt was refused)
+struct Declining;
+impl Signer for Declining {
+    fn try_pubkey(&self) -> Result<Pubkey, SignerError> { Ok(Pubkey::default()) }
+    fn try_sign_message(&self, _message: &[u8]) -> Result<Signature, SignerError> { Err(SignerError::UserCancel("declined".into())) }
+    fn is_interactive(&self) -> bool { true }
+}
+
+/// every signer-based route asked of a declining signer: all must fail, and leave nothing behind
+fn declined_requests(seed: &[u8]) -> bool {
+    let other: Vec<u8> = seed.iter().rev().cloned().chain([0x5au8; 9]).collect();
+    ElGamalKeypair::new_from_signer(&Declining, &other).is_err()
+        && ElGamalSecretKey::new_from_signer(&Declining, &other).is_err()
+        && ElGamalSecretKey::seed_from_signer(&Declining, &other).is_err()
+        && AeKey::new_from_signer(&Declining, &other).is_err()
+        && AeKey::seed_from_signer(&Declining, &other).is_err()
+}
+
 fn kp_bytes(k: &ElGamalKeypair) -> Vec<u8> { <[u8; 64]>::from(k).to_vec() }
 fn ae_bytes(k: AeKey) -> Vec<u8> { <[u8; 16]>::from(k).to_vec() }
 
@@ -81,6 +99,8 @@ pub fn op_kdf(a: &[&str]) -> String {
         [ty, "signer", sigh, seedh] => {
             let (Some(sig), Some(ps)) = (unhex(sigh).and_then(|b| arr::<64>(&b)), unhex(seedh)) else { return bad() };
             let s = Recording { sig, msg: RefCell::new(vec![]) };
+            // a declined request just before (same thread) does not influence the derivation
+            if !declined_requests(&ps) { return "variant-mismatch:declining-signer-accepted".into() }
             match *ty {
                 "elgamal" => match ElGamalKeypair::new_from_signer(&s, &ps) {
                     Ok(k) => {
@@ -112,6 +132,7 @@ pub fn op_kdf(a: &[&str]) -> String {
         [ty, "keypair", kseed, seedh] => {
             let (Some(ks), Some(ps)) = (unhex(kseed).and_then(|b| arr::<32>(&b)), unhex(seedh)) else { return bad() };
             let kp = Keypair::new_from_array(ks);
+            if !declined_requests(&ps) { return "variant-mismatch:declining-signer-accepted".into() }
             let pfx: &[u8] = if *ty == "elgamal" { b"ElGamalSecretKey" } else { b"AeKey" };
             let sig = kp.sign_message(&[pfx, ps.as_slice()].concat());
             let key = match *ty {
